@@ -318,6 +318,8 @@ func (Op R2owa) Op_instruction_verilog_extra_block(arch *Arch, flavor string, le
 
 		result += pref + "\t" + strings.ToUpper(objects[0]) + " : begin\n"
 		result += pref + "\t\tif (waitsm == 1'b1) " + strings.ToLower(objects[0]) + "_val <= 1'b1;\n"
+		// a second r2owa on the same output follows directly: withdraw valid of the completed transfer here
+		result += pref + "\t\telse if (" + strings.ToLower(objects[0]) + "_received) " + strings.ToLower(objects[0]) + "_val <= #1 1'b0;\n"
 		result += pref + "\tend\n"
 
 		result += pref + "\tdefault: begin\n"
